@@ -8,6 +8,7 @@ import itertools
 import random
 
 from edgegraph.builder import explicit
+from edgegraph.structure import Vertex
 from edgegraph.traversal import helpers
 
 from egverif import graphs, oracles, zoo
@@ -26,8 +27,10 @@ RULE = (
 
 def floors(ctx):
     if ctx.tier == "quick":
-        return {"rows_single_link": 400, "evaluations": 5000, "unlink_sweeps": 200, "count_relation_checked": 2000}
-    return {"rows_single_link": 400, "evaluations": 50000, "unlink_sweeps": 2000, "count_relation_checked": 20000}
+        return {"rows_single_link": 400, "evaluations": 5000, "unlink_sweeps": 200, "count_relation_checked": 2000,
+                "pairs_checked_with_warm_cache": 2000, "unlink_sweeps_with_warm_cache": 50}
+    return {"rows_single_link": 400, "evaluations": 50000, "unlink_sweeps": 2000, "count_relation_checked": 20000,
+            "pairs_checked_with_warm_cache": 20000, "unlink_sweeps_with_warm_cache": 500}
 
 
 def _nb_filter(g1):
@@ -57,11 +60,21 @@ def _joining(a, b):
     return out
 
 
+def warm(g):
+    """Fill the neighbor cache of every vertex for every (direction, unknown) setting (caching must be on)."""
+    for v in g.verts:
+        for d in (oracles.FORWARD, oracles.ANY, oracles.BACKWARD):
+            for u in UNKS.values():
+                oracles.outcome(helpers.neighbors, v, d, u, None)
+
+
 def check_pair(ctx, g, ai, bi, ds, uname, fname, rows=None, _shrinking=False):
     a, b = g.verts[ai], g.verts[bi]
     u = UNKS[uname]
     filt = zoo.FL_FILTERS[fname]
     got = oracles.outcome(helpers.find_links, a, b, ds, u, filt)
+    if Vertex.NEIGHBOR_CACHING:
+        ctx.count("pairs_checked_with_warm_cache")
     exp = oracles.table_find_links(a, b, ds, u, filt)
     ctx.evaluated()
     joining = _joining(a, b)
@@ -142,9 +155,20 @@ def _show(g, res):
 ALL_SETTINGS = [(ds, un, fn) for ds in (True, False) for un in UNKS for fn in zoo.FL_FILTERS]
 
 
-def unlink_sweep(ctx, spec, ai, bi, destroy):
+def unlink_sweep(ctx, spec, ai, bi, destroy, cache=False):
     """After unlink(a,b): empty for every setting, both argument orders; other pairs unchanged."""
+    Vertex.NEIGHBOR_CACHING = bool(cache)
+    try:
+        _unlink_sweep(ctx, spec, ai, bi, destroy, cache)
+    finally:
+        Vertex.NEIGHBOR_CACHING = False
+
+
+def _unlink_sweep(ctx, spec, ai, bi, destroy, cache):
     g = graphs.build(spec)
+    if cache:
+        warm(g)
+        ctx.count("unlink_sweeps_with_warm_cache")
     a, b = g.verts[ai], g.verts[bi]
     n = len(g.verts)
     before = {}
@@ -160,7 +184,7 @@ def unlink_sweep(ctx, spec, ai, bi, destroy):
     ctx.evaluated()
     if joining:
         ctx.nontrivial(("unlink", tuple(sorted(zoo.kind_of(l) for l in joining)), ai == bi, destroy))
-    case = {"kind": "unlink", "spec": spec, "a": ai, "b": bi, "destroy": destroy}
+    case = {"kind": "unlink", "spec": spec, "a": ai, "b": bi, "destroy": destroy, "cache": bool(cache)}
     if res[0] != "ok":
         ctx.violation("unlink:raised", f"explicit.unlink(v{ai}, v{bi}, destroy={destroy}) raised {res[1].__name__}", case)
         return
@@ -210,12 +234,19 @@ def run(ctx):
         if n % ctx.nshards != ctx.shard:
             continue
         g = graphs.build(spec)
-        for ai, bi in ((0, 1), (1, 0), (0, 0), (0, 2)):
-            for ds, un, fn in ALL_SETTINGS:
-                check_pair(ctx, g, ai, bi, ds, un, fn, rows=rows)
+        for cache in (False, True):
+            Vertex.NEIGHBOR_CACHING = cache
+            try:
+                if cache:
+                    warm(g)
+                for ai, bi in ((0, 1), (1, 0), (0, 0), (0, 2)):
+                    for ds, un, fn in ALL_SETTINGS:
+                        check_pair(ctx, g, ai, bi, ds, un, fn, rows=rows if not cache else None)
+            finally:
+                Vertex.NEIGHBOR_CACHING = False
         if n % 7 == 0:
-            for (ai, bi) in ((0, 1), (0, 0)):
-                unlink_sweep(ctx, spec, ai, bi, destroy=bool(n % 2))
+            for (ai, bi) in ((0, 1), (0, 0), (1, 0)):
+                unlink_sweep(ctx, spec, ai, bi, destroy=bool(n % 2), cache=bool(n % 3))
     ngraphs = 150 if ctx.tier == "quick" else 1500
     for n in range(ngraphs):
         spec = graphs.rand_spec(rng, nmax=5, mmax=10, uni_mode="none", self_p=0.2)
@@ -223,16 +254,22 @@ def run(ctx):
         if n < 2:
             ctx.sample({"spec": spec, "checked": "all ordered pairs x 2 flags x 3 unknown modes x 5 filters; then unlink sweeps"})
         nv = len(g.verts)
-        for ai in range(nv):
-            for bi in range(nv):
-                for ds, un, fn in ALL_SETTINGS:
-                    check_pair(ctx, g, ai, bi, ds, un, fn)
+        Vertex.NEIGHBOR_CACHING = bool(n % 2)
+        try:
+            if n % 2:
+                warm(g)
+            for ai in range(nv):
+                for bi in range(nv):
+                    for ds, un, fn in ALL_SETTINGS:
+                        check_pair(ctx, g, ai, bi, ds, un, fn)
+        finally:
+            Vertex.NEIGHBOR_CACHING = False
         for _ in range(3):
             ai, bi = rng.randrange(nv), rng.randrange(nv)
             if spec["edges"] and rng.random() < 0.7:
                 e = rng.choice(spec["edges"])
                 ai, bi = (e[1], e[2]) if rng.random() < 0.5 else (e[2], e[1])
-            unlink_sweep(ctx, spec, ai, bi, destroy=rng.random() < 0.5)
+            unlink_sweep(ctx, spec, ai, bi, destroy=rng.random() < 0.5, cache=rng.random() < 0.5)
     ctx.assumptions += [
         "filters are pure; only complete two-ended links",
         "under LNK_UNKNOWN_ERROR with a filter rejecting every unknown joining link, NotImplementedError or the filtered set are both accepted",
@@ -241,8 +278,16 @@ def run(ctx):
 
 def replay(ctx, case):
     if case["kind"] == "pair":
-        check_pair(ctx, graphs.build(case["spec"]), case["a"], case["b"], case["ds"], case["unk"], case["filt"])
+        for cache in (False, True):
+            Vertex.NEIGHBOR_CACHING = cache
+            try:
+                g = graphs.build(case["spec"])
+                if cache:
+                    warm(g)
+                check_pair(ctx, g, case["a"], case["b"], case["ds"], case["unk"], case["filt"])
+            finally:
+                Vertex.NEIGHBOR_CACHING = False
     else:
-        unlink_sweep(ctx, case["spec"], case["a"], case["b"], case["destroy"])
+        unlink_sweep(ctx, case["spec"], case["a"], case["b"], case["destroy"], case.get("cache", False))
     ctx.nontrivial("replay-a")
     ctx.nontrivial("replay-b")
